@@ -41,6 +41,27 @@ func vecReplay(in io.Reader, raw bool, args []string) (*Summary, error) {
 				sum.viol("panic", c, "panic: %v", r)
 			}
 		}()
+		// exact clauses under inexact end points (multiples of 0.1, 1/3, 123.456): the values never step back, and a range
+		// that is a single point (lo == hi) consists of that point only - no tolerance
+		for _, sc := range []float64{0.1, 1 / 3.0, 123.456} {
+			lo, hi := float64(vc.Lo)*sc, float64(vc.Hi)*sc
+			got := vec.Linspace(lo, hi, vc.N)
+			sum.Checks++
+			for i := 1; i < len(got); i++ {
+				if (lo <= hi && got[i] < got[i-1]) || (lo >= hi && got[i] > got[i-1]) {
+					sum.viol("Linspace", c, "Linspace(%.17g, %.17g, %d) steps back at element %d: %.17g after %.17g", lo, hi, vc.N, i, got[i], got[i-1])
+					break
+				}
+			}
+			for _, pt := range []float64{lo, hi, lo + sc} {
+				for i, g := range vec.Linspace(pt, pt, vc.N) {
+					if g != pt {
+						sum.viol("Linspace", c, "Linspace(%.17g, %.17g, %d)[%d] = %.17g: a one-point range must consist of that point", pt, pt, vc.N, i, g)
+						break
+					}
+				}
+			}
+		}
 		for _, sc := range []float64{1, 0.125, 1 << 20} {
 			lo, hi := float64(vc.Lo)*sc, float64(vc.Hi)*sc
 			got := vec.Linspace(lo, hi, vc.N)
